@@ -128,7 +128,7 @@ pub struct Handler {
 impl CommandProcessor<Sink, SinkErr> for Handler {
     fn process<'a>(&mut self, cli: &mut CliHandle<'_, Sink, SinkErr>, raw: RawCommand<'a>) -> Result<(), ProcessError<'a, SinkErr>> {
         let items = crate::token_driver::real_items(&raw.args());
-        self.calls.borrow_mut().push((raw.name().to_string(), items));
+        self.calls.borrow_mut().push((crate::lib_str(raw.name()).to_string(), items));
         let out = self.outputs[self.n % self.outputs.len()].clone();
         self.n += 1;
         for t in out {
@@ -278,9 +278,8 @@ fn want(only: &str, p: &str) -> bool {
 pub fn run(r: &mut Rng, iters: usize, only: &str) -> Option<Cex> {
     for it in 0..iters.max(3000) {
         let c = if it % 2 == 0 { one_session::<RawCommand<'static>>(r, it, only) } else { one_session::<Derived>(r, it, only) };
-        if let Some(mut c) = c {
-            c.input = format!("commands={} {}", if it % 2 == 0 { "raw" } else { "derived[öffne,get,set,get-led,get-adc,старт,стоп,exit]" }, c.input);
-            return Some(c);
+        if c.is_some() {
+            return c;
         }
     }
     None
@@ -310,7 +309,15 @@ fn one_session<C: Names + embedded_cli::service::Autocomplete + embedded_cli::se
     let prompt: &'static str = if it % 2 == 0 { "$ " } else { "" };
     let prompt0 = prompt;
     let built = CliBuilder::default().writer(sink.clone()).command_buffer(cbuf).history_buffer(hbuf).prompt(prompt0).build();
-    let mut trace = format!("cmd_buf={} hist_buf={} prompt={:?} fail_at_op={:?} keys=", cap, hcap, prompt, sink.0.borrow().fail_at);
+    let mut trace = format!(
+        "commands={} cmd_buf={} hist_buf={} prompt={:?} fail_at_op={:?} keys=",
+        if it % 2 == 0 { "raw" } else { "derived[öffne,get,set,get-led,get-adc,старт,стоп,exit]" },
+        cap,
+        hcap,
+        prompt,
+        sink.0.borrow().fail_at
+    );
+    crate::note(&trace);
     let mut cli = match built {
         Ok(c) => c,
         Err(_) => {
@@ -350,6 +357,7 @@ fn one_session<C: Names + embedded_cli::service::Autocomplete + embedded_cli::se
             other => {
                 // API calls between keys: prompt change, application output while a line is being edited
                 write!(trace, " {:?} ", other).unwrap();
+                crate::note(&trace);
                 let (res, exp_delta) = match other {
                     Step::SetPrompt(p) => {
                         prompt = p;
@@ -400,12 +408,13 @@ fn one_session<C: Names + embedded_cli::service::Autocomplete + embedded_cli::se
                 }
                 let (rt, rc) = {
                     let e = cli.editor.as_ref().expect("editor present");
-                    (e.text().to_string(), e.cursor())
+                    (crate::lib_str(e.text()).to_string(), e.cursor())
                 };
                 if (rt.clone(), rc) != (m.text(), m.cur) && (want(only, "C13") || want(only, "C05")) {
                     return Some(Cex { input: trace, expected: format!("line {:?} cursor {} untouched", m.text(), m.cur), actual: format!("line {:?} cursor {}", rt, rc) });
                 }
-                if !desync && want(only, "C06") {
+                // C06, and for an application write also C13: the line and the cursor are shown again below the output
+                if !desync && (want(only, "C06") || (matches!(other, Step::Write(_)) && want(only, "C13"))) {
                     let all = bytes_of(&sink.0.borrow().evs);
                     if let Ok(s) = std::str::from_utf8(&all[fed..]) {
                         if term.feed(s).is_ok() {
@@ -430,6 +439,7 @@ fn one_session<C: Names + embedded_cli::service::Autocomplete + embedded_cli::se
             }
         };
         write!(trace, "\\x{:02x}", b).unwrap();
+        crate::note(&trace);
         let ev = dec.step(b);
         let before = (m.text(), m.cur);
         #[cfg(feature = "history")]
@@ -508,7 +518,7 @@ fn one_session<C: Names + embedded_cli::service::Autocomplete + embedded_cli::se
         // ---- real step
         let (pre_real_cursor, pre_real_len) = {
             let e = cli.editor.as_ref().expect("editor present");
-            (e.cursor(), e.text().chars().count())
+            (e.cursor(), crate::lib_str(e.text()).chars().count())
         };
         let res = cli.process_byte::<C, _>(b, &mut handler);
         let st = sink.0.borrow();
@@ -517,7 +527,7 @@ fn one_session<C: Names + embedded_cli::service::Autocomplete + embedded_cli::se
         drop(st);
         let (rt, rc) = {
             let e = cli.editor.as_ref().expect("editor present");
-            (e.text().to_string(), e.cursor())
+            (crate::lib_str(e.text()).to_string(), e.cursor())
         };
         // C14: a failing sink is reported
         if failed_now && res.is_ok() && want(only, "C14") {
